@@ -17,7 +17,7 @@
   are immutable), so "same schedule" is "same nonce".
   Only property theorems live here; helper lemmas are in Lemmas/ProxyDex*.lean.
 -/
-import MxModel.Lemmas.ProxyDexOut
+import MxModel.Lemmas.ProxyDexLpOps
 
 namespace Mx.C16
 open Mx.ProxyDex
@@ -52,7 +52,7 @@ theorem inv_run (now : Nat) (ops : List Op) : Backed (run (init now) ops) :=
 theorem wrapped_lp_backed (now : Nat) (ops : List Op) :
     let s := run (init now) ops
     (∀ κ, R s κ ≤ s.lk κ) ∧
-    (∀ w r x p, s.wl[w]? = some r → x ≤ r.circ + r.held → 0 < r.total →
+    (∀ (w : Nat) (r : WLp) (x p : Nat), s.wl[w]? = some r → x ≤ r.circ + r.held → 0 < r.total →
         part r.locked r.total x = some p → p ≤ r.rem ∧ p ≤ s.lk r.k) := by
   intro s
   have hb : Backed s := inv_run now ops
@@ -79,7 +79,7 @@ theorem wrapped_lp_backed (now : Nat) (ops : List Op) :
 theorem wrapped_farm_backed (now : Nat) (ops : List Op) :
     let s := run (init now) ops
     (∀ g φ, F s g φ ≤ s.hf g φ) ∧ (∀ w, H s w ≤ heldOf s w) ∧
-    (∀ f q x p, s.wf[f]? = some q → x ≤ q.circ → 0 < q.fa → part q.pa q.fa x = some p →
+    (∀ (f : Nat) (q : WFarm) (x p : Nat), s.wf[f]? = some q → x ≤ q.circ → 0 < q.fa → part q.pa q.fa x = some p →
         x ≤ q.remF ∧ x ≤ s.hf q.farm q.fn ∧ p ≤ q.remP) := by
   intro s
   have hb : Backed s := inv_run now ops
@@ -95,6 +95,43 @@ theorem wrapped_farm_backed (now : Nat) (ops : List Op) :
   simp only [remFAt, and_self, if_true] at h4
   unfold F at h5
   exact ⟨by omega, by omega, Nat.le_of_mul_le_mul_right h3 ht⟩
+
+/-- the LP tokens recorded in wrapped LP tokens are in the proxy, after every history in which the
+    farms never mint fewer farm tokens than farming tokens entered (`FarmOK`, the one callee fact
+    this clause needs — LP tokens travel through the farms): the proxy's LP balance covers all
+    wrapped LP tokens in user hands, hence any amount `x` a user can present -/
+theorem wrapped_lp_tokens_backed (now : Nat) (ops : List Op) (hok : ∀ op ∈ ops, FarmOK op) :
+    let s := run (init now) ops
+    C s ≤ s.lp ∧ (∀ (w : Nat) (r : WLp) (x : Nat), s.wl[w]? = some r → x ≤ r.circ → x ≤ s.lp) := by
+  intro s
+  have hi : LpInv s := run_lpinv ops (lpinv_init now) hok
+  refine ⟨hi.c, ?_⟩
+  intro w r x hr hx
+  have h1 : r.circ ≤ sumOf (·.circ) s.wl := sumOf_le_of_mem (·.circ) s.wl w r hr
+  have h2 := hi.c
+  unfold C at h2
+  omega
+
+/-- leaving a farm entered with wrapped LP tokens: without penalty the same wrapped LP tokens come
+    back; with a penalty the caller gets a new wrapped LP token over the remaining amount that
+    records the SAME locked nonce and the pro-rata locked amount of the remainder — never more
+    than was recorded for the part — and exactly the difference is burned as locked tokens -/
+theorem locked_in_locked_out_farm_lp {s s' : St} {farm f x farming : Nat} {rew : Option LkTok}
+    {o : Out} {q : WFarm} (h : exitFarm s farm f x farming rew = some (s', o))
+    (hq : s.wf[f]? = some q) (hk : q.kind = .wlp) :
+    ∃ p rw, part q.pa q.fa x = some p ∧ s.wl[q.pn]? = some rw ∧ o.locked = (0, 0) ∧ o.base = 0 ∧
+      (x = farming → o.wOut = (q.pn, p) ∧ o.burned = (0, 0)) ∧
+      (x ≠ farming → ∃ qO qN nr, part rw.locked rw.total p = some qO ∧
+          s'.wl[o.wOut.1]? = some nr ∧ nr.k = rw.k ∧ nr.locked = qN ∧ nr.total = o.wOut.2 ∧
+          o.wOut.2 + (x - farming) = p ∧ qN ≤ qO ∧ o.burned.2 = qO - qN ∧
+          o.eDed = (o.burned.2 : Int) * ((s.unl rw.k : Int) - (s.now : Int))) := by
+  obtain ⟨p, rw, hp, hrw, _, hl, hb, h1, h2⟩ := exitFarm_wlp_spec h hq hk
+  refine ⟨p, rw, hp, hrw, hl, hb, fun hx => ⟨(h1 hx).1, (h1 hx).2.1⟩, ?_⟩
+  intro hx
+  obtain ⟨qO, qN, hqO, hpen, _, hle, hw, hbu, _, he, hnew⟩ := h2 hx
+  refine ⟨qO, qN, ⟨p - (x - farming), rw.k, qN, p - (x - farming), 0, 0, qN⟩, hqO,
+    by rw [hw]; exact hnew, rfl, rfl, by rw [hw], ?_, hle, hbu, by rw [hbu]; exact he⟩
+  rw [hw]; show p - (x - farming) + (x - farming) = p; omega
 
 /-- removing liquidity: the locked tokens handed back carry the nonce (= lock schedule) recorded
     in the wrapped LP token and are `min(received, recorded)`: never more than the part recorded
@@ -224,8 +261,8 @@ example :
        .exitFarm 0 1 300 297 none,
        .exitFarm 1 2 100 99 none,
        .removeLiq 1 100 150 60]
-    s.lk 1 = 1000 + 600 - 200 - 300 - 201 ∧ 0 < s.burnL ∧ 0 < R s 1 ∧ R s 1 ≤ s.lk 1 ∧
-    s.eDed = (3 + 3 + 50) * 360 := by
+    s.lk 1 = 1098 ∧ R s 1 = 1098 ∧ s.burnL = 3 + 2 + 50 ∧ s.eDed = (3 + 2 + 50) * 360 ∧
+    s.net = 1098 ∧ s.wl.length = 3 ∧ C s = 298 ∧ s.lp = 298 := by
   decide
 
 end Mx.C16
